@@ -296,7 +296,14 @@ func ZZ_C17_Retention() {
 	home := zzvf.FsHome()
 	defer zzvf.FsCleanup()
 	today := zzDayMs(2026, 3, 10)
-	zzvf.Clock = today + int64(zzvf.IntRange(0, 86000000))
+	// cross: the logger is started in the last minute of the day before, so that the cycle that runs
+	// retention is also the first one after the date has changed (ages count from the day of the cycle)
+	cross := zzvf.Choose(2) == 1
+	if cross {
+		zzvf.Clock = today - int64(zzvf.IntRange(1, 60000))
+	} else {
+		zzvf.Clock = today + int64(zzvf.IntRange(0, 86000000))
+	}
 	keep := zzvf.IntRange(0, 10)
 	rotation := zzvf.Choose(2) == 0
 	lg := zzStart(home, logger.LOG_LEVEL_WARN, 0, keep, rotation)
@@ -333,7 +340,10 @@ func ZZ_C17_Retention() {
 			continue
 		}
 		if e.own && e.age == 0 && rotation {
-			continue // the open log file of today: already there
+			continue // the open log file of today: already there (cross: opened by the cycle)
+		}
+		if cross && e.own && e.age == 1 && rotation {
+			continue // cross: the file the logger opened yesterday
 		}
 		c := "c" + string(rune('a'+i))
 		content[e.name] = c
@@ -356,6 +366,9 @@ func ZZ_C17_Retention() {
 			}
 		default:
 			zzvf.Assert(exists, "retention/foreign-entry-kept/"+e.name)
+		}
+		if !rotation && e.name == "whatap-boot.log" {
+			continue // the logger's own (undated) file: re-opened and appended to when the date changes
 		}
 		if c, has := content[e.name]; has && exists && !e.unsure {
 			b, _ := zzvf.FsRead(p)
